@@ -14,14 +14,18 @@ def resJson (r : Res) : Json :=
     ("warns", Json.arr (r.warnings.map msgJson).toArray),
     ("mc", Json.num (JsonNumber.fromInt r.mc)), ("panic", Json.bool r.panicked)]
 
-def switches : List (String × (Cfg → Cfg)) :=
-  [ ("nullSkipsComposition", fun c => { c with nullSkipsComposition := false }),
-    ("enumSkipsNil", fun c => { c with enumSkipsNil := false }),
-    ("addlItemsBound", fun c => { c with addlItemsBound := false }),
-    ("requiredByDefault", fun c => { c with requiredByDefault := false }),
-    ("floatTolerance", fun c => { c with floatTolerance := false }),
-    ("formatBypassesType", fun c => { c with formatBypassesType := false }),
-    ("ignoresSchemaIdKeys", fun c => { c with ignoresSchemaIdKeys := false }) ]
+def switches : List (String × (Cfg → Cfg) × (Cfg → Bool)) :=
+  [ ("nullSkipsComposition", (fun c => { c with nullSkipsComposition := false }), (·.nullSkipsComposition)),
+    ("enumSkipsNil", (fun c => { c with enumSkipsNil := false }), (·.enumSkipsNil)),
+    ("addlItemsBound", (fun c => { c with addlItemsBound := false }), (·.addlItemsBound)),
+    ("requiredByDefault", (fun c => { c with requiredByDefault := false }), (·.requiredByDefault)),
+    ("floatTolerance", (fun c => { c with floatTolerance := false }), (·.floatTolerance)),
+    ("formatBypassesType", (fun c => { c with formatBypassesType := false }), (·.formatBypassesType)),
+    ("ignoresSchemaIdKeys", (fun c => { c with ignoresSchemaIdKeys := false }), (·.ignoresSchemaIdKeys)),
+    ("leaksImportant", (fun c => { c with leaksImportant := false }), (·.leaksImportant)) ]
+
+/-- switches still open in the code as it is -/
+def activeSwitches : List String := switches.filterMap fun (n, _, get) => if get Cfg.asIs then some n else none
 
 def runSchemaCase (j : Json) : Json :=
   let sj := getD j "schema" (Json.mkObj [])
@@ -39,9 +43,10 @@ def runSchemaCase (j : Json) : Json :=
   let asIs0 := run Cfg.asIs ""
   let rep := run Cfg.repaired path
   let verdict (r : Res) : Option Bool := if r.panicked then none else some r.errors.isEmpty
-  let explain := switches.filterMap fun (name, f) =>
-    if verdict (run (f Cfg.asIs) path) == some spec then some (Json.str name) else none
+  let explain := switches.filterMap fun (name, f, get) =>
+    if get Cfg.asIs && verdict (run (f Cfg.asIs) path) == some spec then some (Json.str name) else none
   Json.mkObj [("spec", Json.bool spec), ("impl", resJson asIs), ("impl0", resJson asIs0),
-    ("rep", resJson rep), ("explain", Json.arr explain.toArray)]
+    ("rep", resJson rep), ("explain", Json.arr explain.toArray),
+    ("active", Json.arr (activeSwitches.map Json.str).toArray)]
 
 end VM.Driver
